@@ -7,7 +7,7 @@ CHECK = {'level': 'exploration',
          'codec: every tree <= 6 revisions over 4 generations x 2 digests + 10^4 (quick) / 10^5 (thorough) seeded random trees <= 40 revisions with bodies, body '
          'keys, channel sets, attachment flags, also after pruning to a random depth 1..12. '
          'db: every set of <= 3 revisions over 3 generations x 2 digests with every tombstone pattern over the leaves in every order, plus seeded samples of the '
-         'sets with interior tombstones (= resurrections; thorough: all of them), of 4-revision sets (all 24 orders) and of 5-revision sets (12 orders, half of '
+         'sets with interior tombstones (= resurrections), of 4-revision sets (all 24 orders) and of 5-revision sets (12 orders, half of '
          'them parents-first), each order pushed into its own document in 8 database configurations (conflict-allowing, conflict-free, conflict-allowing with '
          'a no-conflicts client, revs_limit 1..4), followed by a new edit and a deletion of the winner and by pushes with non-increasing generations; plus a '
          'long-chain scenario that crosses the default revs_limit (100 / 50) next to a tombstoned branch; distinct_nontrivial = distinct (configuration, set)',
